@@ -56,7 +56,7 @@ def code_piece(rng):
             continue
         if any(st[0] == 'StatFunction' and st[1][0][0] in GAME_LOOP for st in p.tree[1]):
             continue   # a top-level game-loop definition of its own would be stripped, rightly
-        src = layout.render(p, rng, style=rng.choice(('normal', 'lines', 'tight')), crlf=False, final_newline=True)
+        src = layout.render(p, rng, style=rng.choice(('normal', 'lines', 'tight', 'wild')), crlf=False, final_newline=True)
         if src is not None:
             return src
     return b'x=1\n'
@@ -110,7 +110,27 @@ def require_piece(rng, name, opt, gap=b''):
         arg += rng.choice((b',{use_game_loop=true}', b', { use_game_loop = true }'))
     call = b'require' + gap + b'(' + (b' ' if gap and rng.random() < 0.5 else b'') + arg + b')'
     form = rng.choice(('stmt', 'assign', 'local', 'field', 'callarg', 'chain', 'nestedfn', 'index', 'in_if', 'in_else', 'in_shortif',
-                       'in_loop', 'in_cond'))
+                       'in_loop', 'in_cond', 'assign_target', 'index_target', 'compound_target', 'multi_target', 'unop', 'binop', 'table_key',
+                       'method_arg', 'for_range'))
+    # (the call as part of what is assigned TO, as an operand, as a table key, as a loop bound)
+    if form == 'assign_target':
+        return call + b'.debug=true\n', form
+    if form == 'index_target':
+        return call + b'[1]=%d\n' % rng.randrange(9), form
+    if form == 'compound_target':
+        return call + b'.n+=1\n', form
+    if form == 'multi_target':
+        return b'a_%d,' % rng.randrange(9) + call + b'.b=1,2\n', form
+    if form == 'unop':
+        return rng.choice((b'z=#', b'z=not ', b'z=-')) + call + b'\n', form
+    if form == 'binop':
+        return rng.choice((b'z=1+' + call + b'\n', b'z=' + call + b'..""\n', b'z=dbg and ' + call + b' or nil\n')), form
+    if form == 'table_key':
+        return b'reg={[' + call + b']=1}\n', form
+    if form == 'method_arg':
+        return b'obj:add(1,' + call + b')\n', form
+    if form == 'for_range':
+        return b'for i=1,' + call + b'.n do k=i end\n', form
     if form == 'stmt':
         return call + b'\n', form
     if form == 'assign':
@@ -729,7 +749,7 @@ def gates(m, tier):
               'found_via_load_path', 'package_name_special_chars', 'lua_path:default', 'lua_path:arg_rel', 'lua_path:arg_abs', 'lua_path:env', 'lua_path:arg_and_env', 'nested_gameloop_function',
               'require_form:stmt', 'require_form:assign', 'require_form:local', 'require_form:field', 'require_form:callarg',
               'require_form:chain', 'require_form:nestedfn', 'require_form:in_if', 'require_form:in_else', 'require_form:in_shortif',
-              'require_form:in_loop', 'require_form:in_cond', 'error:missing', 'error:noargs', 'error:threeargs', 'error:nonstring',
+              'require_form:in_loop', 'require_form:in_cond', 'require_form:assign_target', 'require_form:index_target', 'require_form:compound_target', 'require_form:multi_target', 'require_form:unop', 'require_form:binop', 'require_form:table_key', 'require_form:method_arg', 'require_form:for_range', 'error:missing', 'error:noargs', 'error:threeargs', 'error:nonstring',
               'error:badoption', 'error:offpath_next_to_main', 'error:offpath_next_to_package', 'error:offpath_env', 'main_ends_with_return', 'blank_or_comment_between_require_and_parenthesis', 'required_name_with_doubled_separator', 'function_name_beginning_with_a_gameloop_name', 'other_section_from_a_cart_in_another_directory', 'gameloop_with_comment_before_or_code_after', 'gameloop_name_as_last_component', 'dotted_gameloop_name', 'package_name_non_ascii', 'directory_named_like_package', 'two_files_match_first_entry_wins', 'found_via_pattern_with_placeholder_in_directory',
               'package_without_remaining_code:empty_file', 'package_without_remaining_code:comments_only', 'package_without_remaining_code:game_loop_only', 'one_file_two_names_opposite_options', 'main_starts_with_comment'):
         if f.get(k, 0) < 2:
